@@ -194,6 +194,15 @@ Proof.
   apply edges_in in Hu. destruct Hu as [Hu | Hu]; [apply Hs; exact Hu|]. rewrite Hu in Hd. exact Hd.
 Qed.
 
+(* the part of the invariant the BFS needs: edges stay inside the state array (this also holds for
+   the partial automata build_unchecked returns when a default successor is missing) *)
+Definition aut_closed (a : automaton) : Prop :=
+  initial a < num_states a /\
+  forall t u, t < num_states a -> In u (edges (a_state a t)) -> u < num_states a.
+
+Lemma aut_wf_closed a : aut_wf a -> aut_closed a.
+Proof. intros Hwf. split; [apply Hwf|]. intros t u Ht Hu. eapply aut_wf_targets; eauto. Qed.
+
 (* ------------------------------------------------------------------ 3. reachability *)
 
 (* reachability along edges (what the iterator Automaton::edges lists) *)
@@ -212,9 +221,9 @@ Proof.
   - eapply er_step; [exact IH|exact Hvu].
 Qed.
 
-Lemma ereach_bound a s t : aut_wf a -> s < num_states a -> ereach a s t -> t < num_states a.
+Lemma ereach_bound a s t : aut_closed a -> s < num_states a -> ereach a s t -> t < num_states a.
 Proof.
-  intros Hwf Hs Hr. induction Hr as [|t u _ IH Htu]; auto. eapply aut_wf_targets; eauto.
+  intros Hcl Hs Hr. induction Hr as [|t u _ IH Htu]; auto. eapply (proj2 Hcl); eauto.
 Qed.
 
 Definition bfs_push (qs : list nat * list nat) (n : nat) : list nat * list nat :=
@@ -257,7 +266,7 @@ Lemma reach_go_unfold f a i q seen out :
   let '(q1, s1) := fold_left bfs_push (edges (a_state a i)) (q, seen) in reach_go f a q1 s1 (out ++ [i]).
 Proof. reflexivity. Qed.
 
-Lemma reach_go_spec a : aut_wf a -> forall fuel queue seen out,
+Lemma reach_go_spec a : aut_closed a -> forall fuel queue seen out,
   binv a queue seen out -> num_states a < fuel + length out ->
   let r := reach_go fuel a queue seen out in
   (forall s, In s r <-> ereach a (initial a) s) /\ NoDup r /\ (forall s, In s r -> s < num_states a).
@@ -293,18 +302,18 @@ Proof.
            ++ subst x. destruct (Hw2 y Hy) as [H | H]; [right; exact H|left; apply in_rev in H; exact H].
         -- apply in_or_app. right. exact Hinit.
         -- intros x Hx. apply in_app_or in Hx. destruct Hx as [Hx | Hx]; [|apply Hb; exact Hx].
-           apply in_rev in Hx. eapply aut_wf_targets; [exact Hwf|apply Hb; exact Hi|apply Hw1; exact Hx].
+           apply in_rev in Hx. eapply (proj2 Hwf); [apply Hb; exact Hi|apply Hw1; exact Hx].
       * rewrite app_length. simpl. lia.
 Qed.
 
 Definition reach_list (a : automaton) : list nat := reach_go (S (num_states a)) a [initial a] [initial a] [].
 
-Lemma reach_list_spec a : aut_wf a ->
+Lemma reach_list_spec a : aut_closed a ->
   (forall s, In s (reach_list a) <-> ereach a (initial a) s) /\ NoDup (reach_list a) /\
   (forall s, In s (reach_list a) -> s < num_states a).
 Proof.
   intros Hwf. unfold reach_list. apply reach_go_spec; auto; [|simpl; lia].
-  destruct Hwf as [_ [Hi _]]. constructor; simpl.
+  destruct Hwf as [Hi _]. constructor; simpl.
   - constructor; [intros []|constructor].
   - tauto.
   - intros x [Hx | []]. subst. apply er_refl.
@@ -317,9 +326,13 @@ Qed.
    reachable from the initial state along edges *)
 Theorem reach_exact a : aut_wf a -> forall s,
   In s (reach_go (S (num_states a)) a [initial a] [initial a] []) <-> ereach a (initial a) s.
-Proof. intros Hwf. apply (reach_list_spec a Hwf). Qed.
+Proof. intros Hwf. apply (reach_list_spec a (aut_wf_closed a Hwf)). Qed.
 
-Lemma reachable_spec a : aut_wf a ->
+Theorem reach_exact_closed a : aut_closed a -> forall s,
+  In s (reach_go (S (num_states a)) a [initial a] [initial a] []) <-> ereach a (initial a) s.
+Proof. intros Hcl. apply (reach_list_spec a Hcl). Qed.
+
+Lemma reachable_spec_cl a : aut_closed a ->
   (forall s, In s (reachable a) <-> ereach a (initial a) s) /\ NoDup (reachable a) /\
   StronglySorted le (reachable a) /\ (forall s, In s (reachable a) -> s < num_states a) /\
   length (reachable a) = length (reach_list a).
@@ -332,6 +345,12 @@ Proof.
   - intros s Hs. apply H3. apply sort_nat_in. exact Hs.
   - apply sort_nat_length.
 Qed.
+
+Lemma reachable_spec a : aut_wf a ->
+  (forall s, In s (reachable a) <-> ereach a (initial a) s) /\ NoDup (reachable a) /\
+  StronglySorted le (reachable a) /\ (forall s, In s (reachable a) -> s < num_states a) /\
+  length (reachable a) = length (reach_list a).
+Proof. intros Hwf. apply reachable_spec_cl. apply aut_wf_closed. exact Hwf. Qed.
 
 (* --- edges versus words --- *)
 
@@ -384,7 +403,7 @@ Proof.
   intros Hwf Hnd Hr. induction Hr as [|t u Hr IH Htu].
   - exists []. split; [constructor|reflexivity].
   - destruct IH as [w [Hg Hw]].
-    assert (Ht : t < num_states a) by (eapply ereach_bound; eauto; apply Hwf).
+    assert (Ht : t < num_states a) by (eapply ereach_bound; eauto; [apply aut_wf_closed; exact Hwf|apply Hwf]).
     destruct (edge_has_char a _ _ _ u (aut_wf_state a t Hwf Ht)) as [c [Hc Hn]]; auto.
     { intros d Hd. eapply Hnd; [|exact Hd]. apply a_state_nth. destruct Hwf as [Hl _]. lia. }
     exists (w ++ [c]). split.
@@ -537,10 +556,10 @@ Proof.
       apply Hfo. apply edges_in. right. exact Hdf.
 Qed.
 
-Lemma remove_unreachable_remap_ok a : aut_wf a ->
+Lemma remove_unreachable_remap_ok_cl a : aut_closed a ->
   remap_ok a (new_id_of (num_states a) (reachable a)) (reachable a).
 Proof.
-  intros Hwf. destruct (reachable_spec a Hwf) as [Hin [Hnd [_ [Hb _]]]]. constructor.
+  intros Hwf. destruct (reachable_spec_cl a Hwf) as [Hin [Hnd [_ [Hb _]]]]. constructor.
   - intros k Hk. unfold new_id_of.
     destruct (from_array_spec (reachable a) (repeat 0 (num_states a)) 0 Hnd) as [_ [H _]].
     + intros x Hx. rewrite repeat_length. apply Hb. exact Hx.
@@ -548,6 +567,10 @@ Proof.
   - intros o u Ho Hu. apply Hin. eapply er_step; [apply Hin; exact Ho|exact Hu].
   - apply Hin. apply er_refl.
 Qed.
+
+Lemma remove_unreachable_remap_ok a : aut_wf a ->
+  remap_ok a (new_id_of (num_states a) (reachable a)) (reachable a).
+Proof. intros Hwf. apply remove_unreachable_remap_ok_cl. apply aut_wf_closed. exact Hwf. Qed.
 
 Theorem remove_unreachable_wf a : aut_wf a -> aut_wf (remove_unreachable a).
 Proof.
@@ -561,6 +584,15 @@ Theorem remove_unreachable_lang a : aut_wf a -> forall w, a_accepts (remove_unre
 Proof.
   intros Hwf w. rewrite remove_unreachable_unfold. apply remap_accepts.
   apply remove_unreachable_remap_ok. exact Hwf.
+Qed.
+
+(* the language is also preserved for partial automata (a default successor may be missing, as
+   build_unchecked allows): only closure of the state array under edges is needed *)
+Theorem remove_unreachable_lang_closed a : aut_closed a ->
+  forall w, a_accepts (remove_unreachable a) w = a_accepts a w.
+Proof.
+  intros Hcl w. rewrite remove_unreachable_unfold. apply remap_accepts.
+  apply remove_unreachable_remap_ok_cl. exact Hcl.
 Qed.
 
 (* the kept states are exactly the reachable ones, renumbered in increasing order of their old ids:
@@ -596,6 +628,25 @@ Proof.
     destruct (Nat.lt_trichotomy k1 k2) as [Hc | [Hc | Hc]]; auto.
     + subst k2. lia.
     + pose proof (sorted_nodup_nth_lt R Hso Hnd k2 k1 Hc Hk1). lia.
+Qed.
+
+(* every index used by from_array / remap_nodes is in range (the model's [nth _ _ 0], [upd] and
+   [a_state] defaults are not reached while pruning) *)
+Theorem remove_unreachable_in_range a : aut_wf a ->
+  length (new_id_of (num_states a) (reachable a)) = num_states a /\
+  initial a < num_states a /\
+  forall o, In o (reachable a) ->
+    o < length (astates a) /\ o < num_states a /\
+    forall u, In u (edges (a_state a o)) -> u < num_states a.
+Proof.
+  intros Hwf. destruct (reachable_spec a Hwf) as [_ [Hnd [_ [Hb _]]]]. split; [|split].
+  - unfold new_id_of.
+    destruct (from_array_spec (reachable a) (repeat 0 (num_states a)) 0 Hnd) as [Hl _].
+    + intros x Hx. rewrite repeat_length. apply Hb. exact Hx.
+    + cbv zeta in Hl. rewrite Hl. apply repeat_length.
+  - apply Hwf.
+  - intros o Ho. pose proof (Hb o Ho) as Hlt. pose proof Hwf as [Hlen _]. split; [lia|]. split; auto.
+    intros u Hu. eapply aut_wf_targets; eauto.
 Qed.
 
 (* with no dead default edges, "reachable" can be read as "reached by some word of good characters" *)
@@ -1195,3 +1246,346 @@ Qed.
 
 Corollary compile_successors_total a : merge_spec -> aut_wf a -> compile_successors a <> None.
 Proof. intros Hm Hwf. destruct (compact_eval a Hm Hwf) as [T [H _]]. congruence. Qed.
+
+(* --- 6f. the strict reading of the table code: every vector access checked (nth_error / upd_s),
+   running out of fuel, the assertions of CompactTableBuilder::new and of the resize step, and
+   states[i] in Automaton::next all yield None (= panic).  Under aut_wf the strict functions agree
+   with the model of Automaton.v, so none of the model's defaults ([nth _ _ d], [upd] out of range,
+   find_base out of fuel) is ever reached. --- *)
+Fixpoint upd_s {A} (l : list A) (i : nat) (x : A) : option (list A) :=
+  match l, i with
+  | [], _ => None
+  | _ :: t, O => Some (x :: t)
+  | y :: t, S k => option_map (cons y) (upd_s t k x)
+  end.
+Fixpoint base_conflicts_s (t : ctable) (b : nat) (succ : list (nat * nat)) : option bool :=
+  match succ with
+  | [] => Some false
+  | cv :: r => match nth_error (ct_check t) (b + fst cv) with
+               | None => None
+               | Some x => if negb (Nat.eqb x (ct_n t)) then Some true else base_conflicts_s t b r
+               end
+  end.
+Fixpoint find_base_s (fuel : nat) (t : ctable) (b : nat) (succ : list (nat * nat)) : option (ctable * nat) :=
+  match fuel with
+  | O => None
+  | S f =>
+    match base_conflicts_s t b succ with
+    | None => None
+    | Some false => Some (t, b)
+    | Some true =>
+      if Nat.ltb (length (ct_value t)) (S b + ct_alpha t) then
+        if Nat.leb (S b + ct_alpha t) (2 * length (ct_value t))            (* assert!(new_size >= ...) *)
+        then find_base_s f (ct_resize t (2 * length (ct_value t))) (S b) succ else None
+      else find_base_s f t (S b) succ
+    end
+  end.
+Definition store_s (b i : nat) (ovc : option (list nat * list nat)) (cv : nat * nat) :=
+  match ovc with
+  | None => None
+  | Some (v, c) => match upd_s c (b + fst cv) i, upd_s v (b + fst cv) (snd cv) with
+                   | Some c', Some v' => Some (v', c')
+                   | _, _ => None
+                   end
+  end.
+Definition set_successors_s (t : ctable) (i : nat) (succ : list (nat * nat)) : option ctable :=
+  match find_base_s (S (length (ct_value t)) + ct_alpha t) t 0 succ with
+  | None => None
+  | Some (t1, b) =>
+    match upd_s (ct_base t1) i b, fold_left (store_s b i) succ (Some (ct_value t1, ct_check t1)) with
+    | Some base', Some (v, c) =>
+        Some {| ct_n := ct_n t1; ct_alpha := ct_alpha t1; ct_default := ct_default t1; ct_base := base';
+                ct_value := v; ct_check := c |}
+    | _, _ => None
+    end
+  end.
+(* self.next(s, c).id *)
+Definition a_next_id_s (a : automaton) (s : astate) (c : N) : option nat :=
+  match a_next a s c with
+  | Some v => option_map a_id (nth_error (astates a) v)
+  | None => None
+  end.
+Definition cs_setdef_s (t : ctable) (s : astate) : option ctable :=
+  match a_default s with
+  | Some d => match upd_s (ct_default t) (a_id s) d with
+              | Some df => Some {| ct_n := ct_n t; ct_alpha := ct_alpha t; ct_default := df;
+                                   ct_base := ct_base t; ct_value := ct_value t; ct_check := ct_check t |}
+              | None => None
+              end
+  | None => Some t
+  end.
+Definition cs_step_s (a : automaton) (alphabet : list N) (ot : option ctable) (s : astate) : option ctable :=
+  match ot with
+  | None => None
+  | Some t =>
+    match cs_setdef_s t s with
+    | None => None
+    | Some t1 =>
+      let succ := map (fun ic => (fst ic, a_next_id_s a s (snd ic))) (cs_cand alphabet s) in
+      if forallb (fun x : nat * option nat => match snd x with Some _ => true | None => false end) succ
+      then set_successors_s t1 (a_id s) (map (fun x => (fst x, match snd x with Some v => v | None => 0 end)) succ)
+      else None
+    end
+  end.
+Definition compile_successors_s (a : automaton) : option ctable :=
+  let alphabet := pick_alphabet a in
+  let n := num_states a in let m := length alphabet in
+  if Nat.ltb 0 n && Nat.ltb 0 m then                                     (* assert in new *)
+    match fold_left (cs_step_s a alphabet) (astates a) (Some (cs_t0 n m)) with
+    | None => None
+    | Some t => match ct_base t with [] => None | _ => Some (ct_final t) end   (* max().unwrap() *)
+    end
+  else None.
+Definition ct_eval_s (t : ctable) (s c : nat) : option nat :=
+  match nth_error (ct_base t) s with
+  | None => None
+  | Some b => match nth_error (ct_check t) (b + c) with
+              | None => None
+              | Some x => if Nat.eqb x s then nth_error (ct_value t) (b + c) else nth_error (ct_default t) s
+              end
+  end.
+
+Lemma upd_s_some {A} (l : list A) : forall i x, i < length l -> upd_s l i x = Some (upd l i x).
+Proof.
+  induction l as [|y t IH]; intros [|i] x Hi; simpl in *; try lia; auto. rewrite IH; [reflexivity|lia].
+Qed.
+
+Lemma base_conflicts_s_eq t b succ : (forall cv, In cv succ -> b + fst cv < length (ct_check t)) ->
+  base_conflicts_s t b succ = Some (base_conflicts t b succ).
+Proof.
+  unfold base_conflicts. induction succ as [|cv r IH]; intros H; simpl; auto.
+  rewrite (nth_error_nth_lt _ _ (ct_n t) (H cv (or_introl eq_refl))).
+  destruct (negb (Nat.eqb (nth (b + fst cv) (ct_check t) (ct_n t)) (ct_n t))); simpl; auto.
+  apply IH. intros cv' Hin. apply H. right. exact Hin.
+Qed.
+
+Lemma find_base_s_eq succ : forall f t b L0,
+  length (ct_value t) = length (ct_check t) -> 1 <= length (ct_check t) ->
+  b + ct_alpha t <= length (ct_check t) -> b <= L0 -> L0 <= length (ct_check t) ->
+  (forall j, L0 <= j -> nth j (ct_check t) (ct_n t) = ct_n t) ->
+  (forall cv, In cv succ -> fst cv < ct_alpha t) ->
+  L0 < f + b ->
+  find_base_s f t b succ = Some (find_base f t b succ).
+Proof.
+  induction f as [|f IH]; intros t b L0 Hvl H1 Hb HbL HL Hfree Hsucc Hfuel; [lia|].
+  rewrite find_base_unfold. cbn [find_base_s]. rewrite base_conflicts_s_eq.
+  2:{ intros cv Hcv. specialize (Hsucc cv Hcv). lia. }
+  destruct (base_conflicts t b succ) eqn:Hc; auto.
+  assert (HbL' : b < L0).
+  { destruct (Nat.eq_dec b L0) as [He|]; [|lia]. exfalso. subst b.
+    assert (base_conflicts t L0 succ = false); [|congruence].
+    apply all_false_existsb. intros cv _. rewrite Hfree; [|lia]. rewrite Nat.eqb_refl. reflexivity. }
+  destruct (Nat.ltb (length (ct_value t)) (S b + ct_alpha t)) eqn:Hr.
+  - apply Nat.ltb_lt in Hr.
+    assert (Hle : Nat.leb (S b + ct_alpha t) (2 * length (ct_value t)) = true) by (apply Nat.leb_le; lia).
+    rewrite Hle. apply (IH _ _ L0); auto; try lia;
+      unfold ct_resize; cbn [ct_value ct_check ct_alpha ct_n]; rewrite ?app_length, ?repeat_length; try lia.
+    intros j Hj. destruct (Nat.lt_ge_cases j (length (ct_check t))) as [Hlt | Hge].
+    + rewrite app_nth1; auto.
+    + apply nth_app_repeat. exact Hge.
+  - apply Nat.ltb_ge in Hr. apply (IH _ _ L0); auto; lia.
+Qed.
+
+Lemma store_s_eq b i succ : forall v c,
+  (forall cv, In cv succ -> b + fst cv < length v /\ b + fst cv < length c) ->
+  fold_left (store_s b i) succ (Some (v, c)) = Some (fold_left (store_f b i) succ (v, c)).
+Proof.
+  induction succ as [|cv r IH]; intros v c H; simpl; auto.
+  destruct (H cv (or_introl eq_refl)) as [Hv Hc]. rewrite (upd_s_some c _ i Hc), (upd_s_some v _ (snd cv) Hv).
+  unfold store_f at 2. simpl fst. simpl snd. apply IH. intros cv' Hin. rewrite !upd_length. apply H. right. exact Hin.
+Qed.
+
+Lemma set_successors_s_eq n m k R t row : tinv n m k R t -> k < n -> 1 <= m ->
+  (forall cv, In cv row -> fst cv < m) ->
+  set_successors_s t k row = Some (set_successors t k row).
+Proof.
+  intros [Hn Hm Hbl Hvl Hlen Hbase Hcell Hrow] Hk Hm1 Hrowb.
+  unfold set_successors_s. rewrite set_successors_unfold.
+  rewrite (find_base_s_eq row _ t 0 (length (ct_check t))); try lia.
+  2:{ intros j Hj. rewrite Hn. apply nth_overflow. exact Hj. }
+  2:{ intros cv Hcv. rewrite Hm. apply Hrowb. exact Hcv. }
+  destruct (find_base_spec row (S (length (ct_value t)) + ct_alpha t) t 0 (length (ct_check t)))
+    as [t1 [b [Hf [[e [E1 [E2 [E3 [E4 [E5 E6]]]]]] [Hb [Hnc Hvl1]]]]]]; try lia.
+  { intros j Hj. rewrite Hn. apply nth_overflow. exact Hj. }
+  rewrite Hf. rewrite upd_s_some; [|rewrite E6; lia].
+  rewrite store_s_eq.
+  2:{ intros cv Hcv. specialize (Hrowb cv Hcv). rewrite Hvl1. lia. }
+  destruct (fold_left (store_f b k) row (ct_value t1, ct_check t1)) as [v' c']. reflexivity.
+Qed.
+
+Lemma cs_succ_s_eq a al s st : aut_wf a -> s < num_states a -> Forall good al -> st = a_state a s ->
+  map (fun ic : nat * N => (fst ic, a_next_id_s a st (snd ic))) (cs_cand al st) = cs_succ a al st.
+Proof.
+  intros Hwf Hs Hal Hst. subst st. unfold cs_succ. apply map_ext_in. intros [i ch] Hin. cbn [fst snd]. f_equal.
+  unfold cs_cand in Hin. apply filter_In in Hin. destruct Hin as [Hin _].
+  apply (in_combine_seq al 0%N) in Hin. destruct Hin as [k [_ [Hk Hn]]].
+  assert (Hg : good ch) by (rewrite Forall_forall in Hal; apply Hal; rewrite <- Hn; apply nth_In; exact Hk).
+  destruct (a_next_total a s ch Hwf Hs Hg) as [v [Hv Hvn]]. unfold a_next_id_s. rewrite Hv.
+  pose proof Hwf as [Hl _]. rewrite a_state_nth; [|lia]. simpl.
+  destruct (aut_wf_state a v Hwf Hvn) as [Hid _]. rewrite Hid. reflexivity.
+Qed.
+
+Lemma compile_fold_s a al : aut_wf a -> Forall good al -> 1 <= length al ->
+  forall post pre t, astates a = pre ++ post ->
+  tinv (num_states a) (length al) (length pre) (Rfun a al) t -> dinv a (length pre) t ->
+  fold_left (cs_step_s a al) post (Some t) = fold_left (cs_step a al) post (Some t).
+Proof.
+  intros Hwf Hal Hm. induction post as [|s post IH]; intros pre t Hsplit Hti Hdi; auto.
+  set (k := length pre) in *.
+  assert (Hnth : nth_error (astates a) k = Some s).
+  { rewrite Hsplit, nth_error_app2; [|unfold k; lia]. unfold k. rewrite Nat.sub_diag. reflexivity. }
+  assert (Hk : k < num_states a).
+  { destruct Hwf as [Hl _]. rewrite <- Hl. eapply nth_error_lt_len; eauto. }
+  assert (Hst : s = a_state a k).
+  { unfold a_state. rewrite (nth_error_nth _ _ dstate Hnth). reflexivity. }
+  destruct (aut_wf_state a k Hwf Hk) as [Hid _]. rewrite <- Hst in Hid.
+  destruct (row_spec a al k Hwf Hk Hal) as [Hall [HR1 HR2]]. cbv zeta in Hall, HR1, HR2.
+  rewrite <- Hst in Hall, HR1, HR2.
+  assert (Hsd : cs_setdef_s t s = Some (cs_setdef t s)).
+  { unfold cs_setdef_s, cs_setdef. destruct (a_default s); auto. rewrite upd_s_some; auto.
+    rewrite Hid, (proj1 Hdi). exact Hk. }
+  pose proof (tinv_setdef _ _ _ _ t s Hti) as Hti1.
+  assert (Hstep : cs_step_s a al (Some t) s = cs_step a al (Some t) s).
+  { unfold cs_step_s, cs_step. rewrite Hsd. cbv zeta.
+    rewrite (cs_succ_s_eq a al k s Hwf Hk Hal Hst). rewrite Hall. fold (cs_row a al s).
+    rewrite Hid. apply (set_successors_s_eq (num_states a) (length al) k (Rfun a al)); auto.
+    intros [c v] Hcv. apply HR1 in Hcv. simpl. tauto. }
+  assert (Hstep2 : cs_step a al (Some t) s = Some (set_successors (cs_setdef t s) k (cs_row a al s))).
+  { unfold cs_step. rewrite Hall, Hid. reflexivity. }
+  cbn [fold_left]. rewrite Hstep, Hstep2.
+  destruct (set_successors_spec _ _ k (Rfun a al) (cs_setdef t s) (cs_row a al s) Hti1 Hk Hm HR1 HR2)
+    as [Hti' Hdef'].
+  apply (IH (pre ++ [s])).
+  - rewrite <- app_assoc. exact Hsplit.
+  - rewrite app_length. simpl. rewrite Nat.add_1_r. exact Hti'.
+  - rewrite app_length. simpl. rewrite Nat.add_1_r. fold k. unfold dinv. rewrite Hdef'.
+    destruct Hdi as [Hdl Hdv]. unfold cs_setdef. rewrite Hid.
+    destruct (a_default s) as [d|] eqn:Hd; cbn [ct_default].
+    + rewrite upd_length. split; auto. intros s' d' Hs' Hd'.
+      destruct (Nat.eq_dec s' k) as [He | Hne].
+      * subst s'. rewrite <- Hst, Hd in Hd'. inv Hd'. apply nth_upd_same. lia.
+      * rewrite nth_upd_other; auto. apply Hdv; auto. lia.
+    + split; auto. intros s' d' Hs' Hd'. destruct (Nat.eq_dec s' k) as [He | Hne].
+      * subst s'. rewrite <- Hst, Hd in Hd'. discriminate.
+      * apply Hdv; auto. lia.
+Qed.
+
+(* no bounds check, fuel limit or assertion of the table code fires on a well-formed automaton *)
+Theorem compile_successors_strict a : merge_spec -> aut_wf a ->
+  compile_successors_s a = compile_successors a /\
+  forall T, compile_successors a = Some T -> forall s i, s < num_states a -> i < length (pick_alphabet a) ->
+    ct_eval_s T s i = Some (ct_eval T s i).
+Proof.
+  intros Hmg Hwf. destruct (pick_alphabet_reps a Hmg Hwf) as [_ [Hal _]]. cbv zeta in Hal.
+  pose proof (pick_alphabet_nonempty a Hmg Hwf) as Hm.
+  set (al := pick_alphabet a) in *. set (n := num_states a).
+  assert (Hd0 : dinv a 0 (cs_t0 n (length al))).
+  { split; [apply repeat_length|]. intros s d Hs. lia. }
+  destruct (compile_fold a al Hwf Hal Hm (astates a) [] (cs_t0 n (length al)) eq_refl
+              (tinv_init _ _ _) Hd0) as [t [Hfold [Hti Hdi]]].
+  pose proof (compile_fold_s a al Hwf Hal Hm (astates a) [] (cs_t0 n (length al)) eq_refl
+              (tinv_init _ _ _) Hd0) as Hfs.
+  assert (Hn : 0 < n) by (destruct Hwf as [_ [Hi _]]; unfold n; lia).
+  assert (Hcs : compile_successors a = Some (ct_final t)).
+  { rewrite compile_successors_unfold. fold al. fold n. rewrite Hfold.
+    rewrite <- (ti_m _ _ _ _ _ Hti). reflexivity. }
+  split.
+  - rewrite Hcs. unfold compile_successors_s. fold al. fold n. cbv zeta.
+    replace (Nat.ltb 0 n) with true by (symmetry; apply Nat.ltb_lt; exact Hn).
+    replace (Nat.ltb 0 (length al)) with true by (symmetry; apply Nat.ltb_lt; lia).
+    cbn [andb]. rewrite Hfs, Hfold.
+    pose proof (ti_bl _ _ _ _ _ Hti) as Hbl. destruct (ct_base t); [simpl in Hbl; fold n in Hbl; lia|reflexivity].
+  - intros T HT s i Hs Hi. rewrite Hcs in HT. inv HT. fold al in Hi.
+    destruct (tinv_eval _ _ _ _ Hti s i Hs Hi) as [Hj _].
+    unfold ct_eval_s, ct_eval. cbn [ct_final ct_base ct_default ct_n].
+    rewrite (nth_error_nth_lt _ _ 0); [|rewrite (ti_bl _ _ _ _ _ Hti); exact Hs].
+    rewrite (nth_error_nth_lt _ _ (ct_n t) Hj).
+    destruct (Nat.eqb _ s).
+    + apply nth_error_nth_lt. unfold ct_final in Hj |- *. cbn [ct_check ct_value] in Hj |- *.
+      rewrite firstn_length in Hj |- *. rewrite (ti_vl _ _ _ _ _ Hti). exact Hj.
+    + apply nth_error_nth_lt. rewrite (proj1 Hdi). exact Hs.
+Qed.
+
+(* ------------------------------------------------------------------ 7. edges, final states, counts *)
+
+(* edges lists the successor of interval class 0, 1, ... and then the default successor; the entry
+   at the position of a class is next(s, c) for every character c of that class *)
+Theorem edges_spec a n i s : state_wf n i s ->
+  edges s = a_succ s ++ (match a_default s with Some d => [d] | None => [] end) /\
+  length (edges s) = plen (a_classes s) + (match a_default s with Some _ => 1 | None => 0 end) /\
+  (forall c cid, pclass_of_char (a_classes s) c = Some cid ->
+     a_next a s c = nth_error (edges s) (match cid with CInt j => j | CComp => plen (a_classes s) end)) /\
+  (forall c, good c -> exists cid, pclass_of_char (a_classes s) c = Some cid /\ in_class (a_classes s) c cid).
+Proof.
+  intros [_ [Hp [Hl _]]]. pose proof (pwf_sorted _ Hp) as Hs. split; [reflexivity|]. split; [|split].
+  - unfold edges. rewrite app_length, Hl. destruct (a_default s); reflexivity.
+  - intros c cid Hc. unfold a_next, edges. rewrite Hc. destruct cid as [j|].
+    + destruct (pclass_of_char_res _ c Hs) as [c' [Hc' Hr]]. rewrite Hc in Hc'. inv Hc'.
+      destruct Hr as [iv [Hiv _]]. apply nth_error_lt_len in Hiv. unfold plen in Hl.
+      rewrite nth_error_app1; auto. lia.
+    + rewrite nth_error_app2; [|lia]. rewrite Hl, Nat.sub_diag. destruct (a_default s); reflexivity.
+  - intros c Hg. destruct (pclass_of_char_res _ c Hs) as [cid [Hc Hr]]. exists cid. split; auto.
+    apply class_res_in_class; auto.
+Qed.
+
+Lemma filter_map_length {A B} (f : A -> B) (p : B -> bool) l :
+  length (filter p (map f l)) = length (filter (fun x => p (f x)) l).
+Proof. induction l as [|x t IH]; simpl; auto. destruct (p (f x)); simpl; auto. Qed.
+
+Lemma map_nth_seq0 {A} (l : list A) d : map (fun i => nth i l d) (seq 0 (length l)) = l.
+Proof.
+  induction l as [|x t IH]; simpl; auto. f_equal. rewrite <- seq_shift, map_map. simpl. exact IH.
+Qed.
+
+(* num_states / num_final_states count the states / the final flags, before and after pruning *)
+Theorem counts_spec a : aut_wf a ->
+  num_states a = length (astates a) /\
+  num_final a = length (filter (fun s => a_final (a_state a s)) (seq 0 (num_states a))) /\
+  num_final (remove_unreachable a) = length (filter (fun s => a_final (a_state a s)) (reachable a)) /\
+  (forall k, k < length (reachable a) ->
+     a_final (a_state (remove_unreachable a) k) = a_final (a_state a (nth k (reachable a) 0))).
+Proof.
+  intros Hwf. pose proof Hwf as [Hl [_ [Hf _]]]. split; [auto|]. split; [|split].
+  - rewrite <- Hf, <- Hl. unfold a_state. generalize (astates a). intros l.
+    rewrite <- (map_nth_seq0 l dstate) at 1. apply filter_map_length.
+  - rewrite remove_unreachable_unfold. unfold remap_nodes. cbn [num_final].
+    rewrite filter_map_length. reflexivity.
+  - intros k Hk. rewrite remove_unreachable_unfold, remap_state_at; auto.
+Qed.
+
+(* ------------------------------------------------------------------ 8. a dead default edge *)
+(* build_unchecked accepts a default successor on a state whose intervals already cover every
+   character (build rejects it: EmptyComplementaryClass).  edges() lists that default, so the BFS of
+   remove_unreachable_states keeps its target although no string reaches it.  Harmless for the
+   language (remove_unreachable_lang), but "reachable" in C14 means "along edges". *)
+Definition dd_builder : builder :=
+  b_mark_final (b_add_transition (b_set_default (b_add_transition (b_new 0%N) 0%N (0%N, MAXC) 0%N) 0%N 1%N)
+                                 1%N (0%N, MAXC) 1%N) 1%N.
+Definition dd_aut : automaton :=
+  {| num_states := 2; num_final := 1; initial := 0;
+     astates := [ {| a_id := 0; a_final := false; a_classes := {| ivs := [(0%N, MAXC)]; wit := (MAXC + 1)%N |};
+                     a_succ := [0]; a_default := Some 1 |};
+                  {| a_id := 1; a_final := true; a_classes := pnew; a_succ := []; a_default := Some 1 |} ] |}.
+
+Lemma dd_build : build_unchecked dd_builder = Some dd_aut /\ build dd_builder = Some (BErr EmptyComplementaryClass).
+Proof. split; vm_compute; reflexivity. Qed.
+
+Lemma dd_stays w : goodw w -> a_str_next dd_aut 0 w = Some 0.
+Proof.
+  induction 1 as [|c w Hc _ IH]; [reflexivity|].
+  cbn [a_str_next]. replace (a_next dd_aut (a_state dd_aut 0) c) with (Some 0); [exact IH|].
+  symmetry. unfold a_next, a_state, dd_aut. cbn [astates nth a_classes a_succ].
+  rewrite (pclass_of_char_complete _ c (CInt 0)); [reflexivity| |].
+  - cbn [ivs ivs_sorted]. unfold cs_valid. cbn [fst snd]. repeat split; unfold MAXC; lia.
+  - exists (0%N, MAXC). split; [reflexivity|]. unfold mem. cbn [fst snd]. unfold good in Hc. lia.
+Qed.
+
+Theorem dead_default_keeps_unreached_state :
+  aut_wf dd_aut /\ In 1 (reachable dd_aut) /\ ~ creach dd_aut 1 /\
+  num_states (remove_unreachable dd_aut) = 2 /\ ~ no_dead_default dd_aut.
+Proof.
+  split; [apply aut_wfb_iff; vm_compute; reflexivity|]. split; [vm_compute; auto|]. split; [|split].
+  - intros [w [Hg Hw]]. change (initial dd_aut) with 0 in Hw. rewrite (dd_stays w Hg) in Hw. discriminate.
+  - vm_compute. reflexivity.
+  - intros H. specialize (H 0 _ 1 eq_refl eq_refl). vm_compute in H. discriminate.
+Qed.
